@@ -4,6 +4,10 @@
  * can be submitted the way uv_getaddrinfo does (uv__req_init + uv__work_submit(SLOW_IO)).
  *
  * usage: c08_real <nloops> <items-per-loop> <seed>      (UV_THREADPOOL_SIZE from the environment)
+ *        c08_real hang <0=getnameinfo|1=getaddrinfo> <flags>
+ *   hang mode: the libc resolver calls are interposed and block until released by the harness; more lookups than
+ *   pool threads are submitted with the given flags, then a uv_queue_work and a uv_fs_stat request.  Monitors: at
+ *   most (n+1)/2 lookups hang at once, and (n >= 2) the other requests complete while the lookups hang.
  */
 #include "threadpool.c"
 #include <stdatomic.h>
@@ -11,6 +15,9 @@
 #include <string.h>
 #include <unistd.h>
 #include <netinet/in.h>
+#include <netdb.h>
+#include <dlfcn.h>
+#include <semaphore.h>
 
 enum { K_CPU, K_SLOW, K_FS, K_RANDOM, K_GAI, K_GNI, NKINDS };
 #define MAXL 4
@@ -167,8 +174,112 @@ static void* loop_thread(void* arg) {
   return NULL;
 }
 
+
+/* ------------------------------------------------------------------ hang mode: interposed resolver */
+static atomic_int hang_on, hang_now, hang_max, hang_calls;
+static sem_t hang_gate;
+
+static void hang_here(void) {
+  int now, m;
+  if (!atomic_load(&hang_on)) return;
+  now = atomic_fetch_add(&hang_now, 1) + 1;
+  m = atomic_load(&hang_max);
+  while (now > m && !atomic_compare_exchange_weak(&hang_max, &m, now)) {}
+  atomic_fetch_add(&hang_calls, 1);
+  sem_wait(&hang_gate);
+  atomic_fetch_sub(&hang_now, 1);
+}
+
+static int (*real_getnameinfo)(const struct sockaddr*, socklen_t, char*, socklen_t, char*, socklen_t, int);
+static int (*real_getaddrinfo)(const char*, const char*, const struct addrinfo*, struct addrinfo**);
+__attribute__((constructor)) static void resolve_real(void) {      /* before any thread exists */
+  real_getnameinfo = dlsym(RTLD_NEXT, "getnameinfo");
+  real_getaddrinfo = dlsym(RTLD_NEXT, "getaddrinfo");
+}
+
+int getnameinfo(const struct sockaddr* sa, socklen_t salen, char* host, socklen_t hostlen, char* serv,
+                socklen_t servlen, int flags) {
+  hang_here();
+  return real_getnameinfo(sa, salen, host, hostlen, serv, servlen, flags);
+}
+
+int getaddrinfo(const char* node, const char* service, const struct addrinfo* hints, struct addrinfo** res) {
+  hang_here();
+  return real_getaddrinfo(node, service, hints, res);
+}
+
+static int h_lookups_done, h_work_ran, h_work_done, h_fs_done, h_timeout, h_settled;
+static void h_gni_cb(uv_getnameinfo_t* req, int st, const char* h, const char* s) { (void) req; (void) st; (void) h; (void) s; h_lookups_done++; }
+static void h_gai_cb(uv_getaddrinfo_t* req, int st, struct addrinfo* res) { (void) req; (void) st; if (res) uv_freeaddrinfo(res); h_lookups_done++; }
+static void h_work(uv_work_t* req) { (void) req; h_work_ran = 1; }
+static void h_after(uv_work_t* req, int st) { (void) req; (void) st; h_work_done = 1; }
+static void h_fs_cb(uv_fs_t* req) { uv_fs_req_cleanup(req); h_fs_done = 1; }
+static void h_guard_cb(uv_timer_t* t) { (void) t; h_timeout = 1; }
+static void h_settle_cb(uv_timer_t* t) { (void) t; h_settled = 1; }
+
+static int hang_main(int which, int flags) {
+  uv_loop_t loop;
+  uv_getnameinfo_t* gni;
+  uv_getaddrinfo_t* gai;
+  uv_work_t work;
+  uv_fs_t fs;
+  uv_timer_t guard, settle;
+  struct sockaddr_in a;
+  struct addrinfo hints;
+  int i, m, r, n, hcap;
+  alarm(60);
+  if (uv_loop_init(&loop)) return 3;
+  uv_once(&once, init_once);
+  n = (int) nthreads;
+  hcap = (n + 1) / 2;
+  m = n + 2;
+  sem_init(&hang_gate, 0, 0);
+  atomic_store(&hang_on, 1);
+  gni = calloc(m, sizeof(*gni));
+  gai = calloc(m, sizeof(*gai));
+  uv_ip4_addr("127.0.0.1", 80, &a);
+  memset(&hints, 0, sizeof(hints));
+  hints.ai_flags = flags;
+  hints.ai_socktype = SOCK_STREAM;
+  for (i = 0; i < m; i++) {
+    r = which == 0 ? uv_getnameinfo(&loop, &gni[i], h_gni_cb, (struct sockaddr*) &a, flags)
+                   : uv_getaddrinfo(&loop, &gai[i], h_gai_cb, "127.0.0.1", "80", &hints);
+    if (r != 0) { printf("bad submit lookup returned %d\n", r); return 3; }
+  }
+  if (uv_queue_work(&loop, &work, h_work, h_after)) return 3;
+  if (uv_fs_stat(&loop, &fs, "/", h_fs_cb)) return 3;
+  uv_timer_init(&loop, &guard);
+  uv_timer_init(&loop, &settle);
+  uv_timer_start(&guard, h_guard_cb, 2500, 0);
+  if (n >= 2)
+    while (!(h_work_done && h_fs_done) && !h_timeout) uv_run(&loop, UV_RUN_ONCE);
+  uv_timer_start(&settle, h_settle_cb, 300, 0);     /* let every free worker pick up what it can */
+  while (!h_settled) uv_run(&loop, UV_RUN_ONCE);
+  if (n >= 2 && !(h_work_done && h_fs_done))
+    FAIL("fast-starved which=%d flags=%d n=%d: uv_queue_work done=%d uv_fs_stat done=%d while %d lookups hang in the resolver",
+         which, flags, n, h_work_done, h_fs_done, atomic_load(&hang_now));
+  if (atomic_load(&hang_max) > hcap)
+    FAIL("lookup-cap which=%d flags=%d n=%d: %d lookups occupy pool threads at once, cap %d",
+         which, flags, n, atomic_load(&hang_max), hcap);
+  if (h_lookups_done != 0) FAIL("lookup-done-early %d lookup callbacks before the resolver returned", h_lookups_done);
+  atomic_store(&hang_on, 0);
+  for (i = 0; i < m; i++) sem_post(&hang_gate);
+  uv_timer_stop(&guard);
+  uv_close((uv_handle_t*) &guard, NULL);
+  uv_close((uv_handle_t*) &settle, NULL);
+  uv_run(&loop, UV_RUN_DEFAULT);
+  if (h_lookups_done != m || !h_work_done || !h_fs_done)
+    FAIL("hang-mode completion lookups=%d/%d work=%d fs=%d", h_lookups_done, m, h_work_done, h_fs_done);
+  if (uv_loop_close(&loop)) FAIL("uv_loop_close busy");
+  free(gni); free(gai);
+  printf("%s hang which=%d flags=%d nthreads=%d maxhang=%d cap=%d calls=%d\n", atomic_load(&bad) ? "bad" : "ok", which, flags,
+         n, atomic_load(&hang_max), hcap, atomic_load(&hang_calls));
+  return atomic_load(&bad) ? 1 : 0;
+}
+
 int main(int argc, char** argv) {
   int i, per, seed;
+  if (argc == 4 && !strcmp(argv[1], "hang")) return hang_main(atoi(argv[2]), atoi(argv[3]));
   if (argc != 4) return 2;
   nloops = atoi(argv[1]); per = atoi(argv[2]); seed = atoi(argv[3]);
   if (nloops < 1 || nloops > MAXL || per < 1 || per > MAXI) return 2;
